@@ -552,9 +552,13 @@ Theorem C02_nd_select_examples :
     = Some (NW (mat [[10;20];[3;4]]) (Some (mat [[2;0];[0;5]]))) /\
   nselect_wrong_side (true, [false; true]) (NW (mat [[1;2];[3;4]]) (Some (mat [[2;0];[0;5]]))) (NW (mat [[10;20];[30;40]]) (Some (mat [[0;3];[1;1]])))
     = Some (NW (mat [[10;2];[30;4]]) (Some (mat [[0;0];[1;5]]))) /\
-  (* a value weighted on ONE side only: torch gives the rows of the un-weighted side the OTHER side's weight; outside the contract *)
-  nselect_torch (true, [true; false]) (NW (vec [5;7]) None) (NW (vec [1;2]) (Some (vec [0;1]))) = Some (NW (vec [5;2]) (Some (vec [0;1]))) /\
-  nselect (true, [true; false]) (NW (vec [5;7]) None) (NW (vec [1;2]) (Some (vec [0;1]))) = None.
+  (* a value weighted on ONE side only: the rows of the side without weight are fully weighted (1); before the repair they took the OTHER
+     side's weight, and the contract had to exclude such pairs *)
+  nselect_torch (true, [true; false]) (NW (vec [5;7]) None) (NW (vec [1;2]) (Some (vec [0;1]))) = Some (NW (vec [5;2]) (Some (vec [1;1]))) /\
+  nselect (true, [true; false]) (NW (vec [5;7]) None) (NW (vec [1;2]) (Some (vec [0;1]))) = Some (NW (vec [5;2]) (Some (vec [1;1]))) /\
+  nselect (true, [false; true]) (NP (vec [5;7])) (NW (vec [1;2]) (Some (vec [0;3]))) = Some (NW (vec [1;7]) (Some (vec [0;1]))) /\
+  nselect_torch_old (true, [true; false]) (NW (vec [5;7]) None) (NW (vec [1;2]) (Some (vec [0;1]))) = Some (NW (vec [5;2]) (Some (vec [0;1]))) /\
+  nselect_old (true, [true; false]) (NW (vec [5;7]) None) (NW (vec [1;2]) (Some (vec [0;1]))) = None.
 Proof. exact nd_select_examples. Qed.
 Local Close Scope Z_scope.
 Print Assumptions C02_nd_select_examples.
@@ -584,16 +588,41 @@ Theorem C02_partial_revert_nd :
 Proof. exact partial_revert_nd. Qed.
 Print Assumptions C02_partial_revert_nd.
 
-(** a value weighted on ONE side only, with what torch does: the history meets the precondition, the rejected row of the variable
-    itself carries the weight of the rejected proposal and a cached derived value is stale (a finding, replayed on the code) *)
-Theorem C02_one_sided_weight_refuted :
+(** a value weighted on ONE side only.  BEFORE the repair of [_select] (model instance [nsem_torch_old]: the rows of the side without weight
+    take the OTHER side's weight) the history meets the precondition, the rejected row of the variable itself carries the weight of the
+    rejected proposal and a cached derived value is stale — the former finding, replayed on a tree that still has the old rule *)
+Theorem C02_one_sided_weight_old_refuted :
   gwf_b (mk_ngraph one_sided_nodes) = true /\
-  MaskDisciplined (mk_ngraph one_sided_nodes) nsem_torch (init_store (mk_ngraph one_sided_nodes)) one_sided_ops /\
-  nread_of (mk_ngraph one_sided_nodes) nsem_torch true one_sided_ops 0 0 = Ok (NW (vec [5; 2]%Z) (Some (vec [0; 1]%Z))) /\
-  nread_of (mk_ngraph one_sided_nodes) nsem_torch true one_sided_ops 0 1 = Ok (NP (vec [5; 2]%Z)) /\
-  nfresh_of (mk_ngraph one_sided_nodes) nsem_torch true one_sided_ops 0 1 = Some (Some (NP (vec [0; 2]%Z))).
-Proof. exact one_sided_weight_refuted. Qed.
-Print Assumptions C02_one_sided_weight_refuted.
+  MaskDisciplined (mk_ngraph one_sided_nodes) nsem_torch_old (init_store (mk_ngraph one_sided_nodes)) one_sided_ops /\
+  nread_of (mk_ngraph one_sided_nodes) nsem_torch_old true one_sided_ops 0 0 = Ok (NW (vec [5; 2]%Z) (Some (vec [0; 1]%Z))) /\
+  nread_of (mk_ngraph one_sided_nodes) nsem_torch_old true one_sided_ops 0 1 = Ok (NP (vec [5; 2]%Z)) /\
+  nfresh_of (mk_ngraph one_sided_nodes) nsem_torch_old true one_sided_ops 0 1 = Some (Some (NP (vec [0; 2]%Z))).
+Proof. exact one_sided_weight_old_refuted. Qed.
+Print Assumptions C02_one_sided_weight_old_refuted.
+
+(** the code as it is ("a side that carries no weights is fully weighted"): the same history is inside the class of [C02_partial_revert_nd],
+    x is [5, 2] with weights [1, 1] (the contract-restricted [nsem] and what torch does, [nsem_torch], agree) and every read is fresh *)
+Theorem C02_one_sided_weight_now :
+  entrywise_axis_b one_sided_nodes = true /\
+  MaskDisciplined (mk_ngraph one_sided_nodes) nsem (init_store (mk_ngraph one_sided_nodes)) one_sided_ops /\
+  nread_of (mk_ngraph one_sided_nodes) nsem true one_sided_ops 0 0 = Ok (NW (vec [5; 2]%Z) (Some (vec [1; 1]%Z))) /\
+  nread_of (mk_ngraph one_sided_nodes) nsem true one_sided_ops 0 1 = Ok (NP (vec [5; 2]%Z)) /\
+  nfresh_of (mk_ngraph one_sided_nodes) nsem true one_sided_ops 0 1 = Some (Some (NP (vec [5; 2]%Z))) /\
+  nread_of (mk_ngraph one_sided_nodes) nsem_torch true one_sided_ops 0 0 = Ok (NW (vec [5; 2]%Z) (Some (vec [1; 1]%Z))).
+Proof. exact one_sided_weight_now. Qed.
+Print Assumptions C02_one_sided_weight_now.
+
+(** the repair changes nothing where the old contract was defined (two sides of the same kind), and the old contract was a restriction of
+    what the old code did *)
+Theorem C02_nd_repair_same_kind_unchanged :
+  forall mk old cur, nselect_old mk old cur <> None -> nselect mk old cur = nselect_old mk old cur.
+Proof. exact nselect_same_kind_unchanged. Qed.
+Print Assumptions C02_nd_repair_same_kind_unchanged.
+
+Theorem C02_nd_old_contract_is_old_torch :
+  forall mk old cur r, nselect_old mk old cur = Some r -> nselect_torch_old mk old cur = Some r.
+Proof. exact nselect_old_sub_torch. Qed.
+Print Assumptions C02_nd_old_contract_is_old_torch.
 
 (** the headline on n-d values: after a forked assignment, reads allowed by the contract and [revert(mask)] (right-broadcasting), row [j]
     of EVERY doubly cached node of the forked sub-graph — plain or weighted, whatever its trailing shape — is the forked row where
